@@ -25,9 +25,9 @@ THEOREMS = [
     "agg_all_null", "count_distinct_ignores_null", "left_outer_pads", "left_outer_decomp", "right_outer_pads",
     "distinct_idempotent", "orderCmp_laws", "order_is_sorted_perm", "limit_offset_slice",
     # refinement L2 -> L1 per physical operator (hypothesis = where the executor equals the spec)
-    "exec_refines_spec_rowpath", "exec_refines_spec_rowpath_sum_partial", "exec_refines_spec_rowpath_sum_unsound",
-    "exec_refines_spec_chunkpath_sum_partial", "exec_refines_spec_chunkpath_sum_unsound",
-    "exec_refines_spec_chunkpath_sum_raw_unsound", "exec_refines_spec_count_distinct_unsound",
+    "exec_refines_spec_rowpath", "exec_refines_spec_rowpath_sum", "exec_refines_spec_rowpath_sum_regression",
+    "exec_refines_spec_chunkpath_sum", "exec_refines_spec_chunkpath_sum_regression",
+    "exec_refines_spec_count_distinct", "exec_refines_spec_count_distinct_regression",
     "exec_refines_spec_hashjoin", "exec_refines_spec_hashjoin_null_key_regression", "exec_refines_spec_hashjoin_int_width_unsound",
     # shared with C11 (imported module RlModel.Thm.C11 is audited by ./check C11)
 ]
@@ -246,7 +246,13 @@ def decide(ck, c, ir, mr, stats, engine="memory"):
         return
     if ist != "ok":
         stats["impl_vs_oracle"]["disagree"] += 1
-        kind = "panic" if ist.startswith("panic") else "error"
+        # since /repo 4225762 a panic inside an operator task comes back as `Err(operator panicked: …)`
+        # instead of Ok with rows missing: same mechanisms, same signatures
+        if "not yet implemented" in ist or "unsupported join type" in ist:
+            stats["tags"]["nljoin:outer-todo"] = stats["tags"].get("nljoin:outer-todo", 0) + 1
+            ck.report("nljoin:outer-todo", "the chosen plan uses the nested-loop RIGHT/FULL OUTER join, which is todo!(): `%s` fails with %s" % (c["sql"], ist[:100]), replay=rep)
+            return
+        kind = "panic" if (ist.startswith("panic") or "operator panicked" in ist) else "error"
         what = ist
         mech = ("column-not-found" if "not found from input" in ist else
                 "apply-not-rewritten" if "Apply is not supported" in ist else
